@@ -14,7 +14,9 @@ from bounded.common import run
 
 def make_files(d, rng):
     import obspy
-    specs = [("fast_long", 500., 35000), ("slow", 100., 1500), ("mid", 200., 2600)]   # the first record needs an FFT longer than the 32768 floor
+    # 150 s each; with 70 s windows (family hvsr-fft) the windows of the first file hold 35001 samples and need an FFT longer than the
+    # 32768 floor, those of the other files do not
+    specs = [("fast_long", 500., 75000), ("slow", 100., 15000), ("mid", 200., 30000)]
     names = []
     for name, fs, n in specs:
         t = np.arange(n) / fs
@@ -35,7 +37,12 @@ def make_settings(d, kind):
         pre = hvsrpy.HvsrPreProcessingSettings(window_length_in_seconds=2.0, filter_corner_frequencies_in_hz=[0.5, 20.0], detrend="linear")
     else:
         pre = hvsrpy.PsdPreProcessingSettings(window_length_in_seconds=2.0, differentiate=True, detrend="constant")
-    pro = hvsrpy.HvsrTraditionalProcessingSettings(smoothing=dict(operator="konno_and_ohmachi", bandwidth=40., center_frequencies_in_hz=fcs))
+    if kind == "hvsr-fft":
+        # a settings file that carries an fft_settings dictionary: the length chosen for one file must not reach the next file of the chunk
+        pre = hvsrpy.HvsrPreProcessingSettings(window_length_in_seconds=70.0, detrend="linear")
+        pro = hvsrpy.HvsrTraditionalProcessingSettings(fft_settings=dict(n=1024), smoothing=dict(operator="konno_and_ohmachi", bandwidth=40., center_frequencies_in_hz=fcs))
+    else:
+        pro = hvsrpy.HvsrTraditionalProcessingSettings(smoothing=dict(operator="konno_and_ohmachi", bandwidth=40., center_frequencies_in_hz=fcs))
     pre.save(os.path.join(d, f"pre_{kind}.json"))
     pro.save(os.path.join(d, f"pro_{kind}.json"))
     return f"pre_{kind}.json", f"pro_{kind}.json"
@@ -61,12 +68,12 @@ def cli_clause(cl, rng, n, replay):
     try:
         names = make_files(d, rng)
         configs = []
-        for kind in ("hvsr-filter", "psd-diff"):
+        for kind in ("hvsr-filter", "psd-diff", "hvsr-fft"):
             for order in itertools.permutations(range(3)):
                 for nproc in (1, 2, 3):
                     configs.append((kind, order, nproc))
         # quick: the chunk-sharing schedules first (one worker: every file in one chunk, the long fast file first / last)
-        first = [("hvsr-filter", (0, 1, 2), 1), ("psd-diff", (0, 1, 2), 1), ("hvsr-filter", (1, 0, 2), 2), ("psd-diff", (2, 1, 0), 3)]
+        first = [("hvsr-filter", (0, 1, 2), 1), ("psd-diff", (0, 1, 2), 1), ("hvsr-fft", (0, 1, 2), 1), ("hvsr-filter", (1, 0, 2), 2), ("psd-diff", (2, 1, 0), 3)]
         configs = first + [c for c in configs if c not in first]
         refs = {}
         for kind, order, nproc in configs[:n]:
@@ -103,8 +110,8 @@ def cli_clause(cl, rng, n, replay):
 
 
 CLAUSES = [
-    ("bounded:CLI output per file == read/preprocess/process/write for that file alone (orders x --nproc x two settings families)", "bounded",
-     "3 miniSEED files (500 Hz x 35000, 100 Hz x 1500, 200 Hz x 2600 samples); quick 4 schedules (single-chunk first), thorough all 36", "hvsrpy.cli._process_hvsr", (4, 36), cli_clause),
+    ("bounded:CLI output per file == read/preprocess/process/write for that file alone (orders x --nproc x three settings families)", "bounded",
+     "3 miniSEED files of 150 s (500, 100, 200 Hz); 2 s windows, and 70 s windows for the family with an fft_settings dictionary; quick 5 schedules (single-chunk first), thorough all 54", "hvsrpy.cli._process_hvsr", (5, 54), cli_clause),
 ]
 
 if __name__ == "__main__":
